@@ -747,6 +747,11 @@ func configClass(prefix string, res *response) func(c canary) string {
 
 		for _, n := range names {
 			if bytes.Contains([]byte(doc.Items[n].Value), c.Value) {
+				// a name the caller spelled differently (case, padding) is one root cause per setting
+				if plain := strings.ToLower(strings.TrimSpace(n)); plain != n {
+					return prefix + ":respelled-name:" + plain
+				}
+
 				return prefix + ":" + n
 			}
 		}
@@ -981,6 +986,57 @@ func (x *runner) sweep(thorough bool) {
 	}
 
 	secretNames := []string{defs.ServerTokenKeySetting, defs.LogonTokenSetting, defs.LogonRefreshTokenSetting, defs.OAuthClientSecretSetting, defs.DefaultCredentialSetting, defs.LogonUserdataKeySetting, "ego.server.token"}
+
+	// C2. other spellings of the same names: white space around them (blank, tab,
+	// newline, no-break space), and for the secret names case changes with and
+	// without padding; alone and paired (both orders) with a plainly spelled name.
+	pads := [][2]string{{" ", ""}, {"", " "}, {"\t", ""}, {"", "\t"}, {"", "\n"}, {" ", " "}, {"\t ", " \t"}, {"\u00a0", ""}, {"", "\u00a0"}}
+	plainName := defs.ServerTokenExpirationSetting
+	respelled := 0
+
+	title := func(n string) string {
+		parts := strings.Split(n, ".")
+		for i, p := range parts {
+			if p != "" {
+				parts[i] = strings.ToUpper(p[:1]) + p[1:]
+			}
+		}
+
+		return strings.Join(parts, ".")
+	}
+
+	for _, n := range names {
+		spellings := []string{}
+
+		for _, pd := range pads {
+			spellings = append(spellings, pd[0]+n+pd[1])
+		}
+
+		if inList(n, secretNames) {
+			for _, cased := range []string{strings.ToUpper(n), title(n)} {
+				spellings = append(spellings, cased)
+
+				for _, pd := range pads {
+					spellings = append(spellings, pd[0]+cased+pd[1])
+				}
+			}
+		}
+
+		for _, sp := range spellings {
+			ask(admin, sp)
+			respelled++
+
+			if inList(n, secretNames) || thorough {
+				ask(admin, sp, plainName)
+				ask(admin, plainName, sp)
+				ask(admin, n, sp)
+
+				respelled += 3
+			}
+		}
+	}
+
+	x.r.Add("single_setting_requests_with_respelled_names", int64(respelled))
 
 	for i, a := range names {
 		for j, b := range names {
